@@ -1,3 +1,6 @@
 ---- MODULE Gen_chain ----
 EXTENDS Gen, MC_chain
+mcScriptCrash == << <<"build", "">>, <<"edit", "s", "S1">>, <<"build", "">> >>
+mcScriptCrash2 == << <<"build", "">>, <<"clean", "">>, <<"build", "">> >>
+mcScriptCrash0 == << <<"build", "">> >>
 ====
